@@ -394,6 +394,18 @@ fn run_exec(prog: &Prog, ch: &mut Chooser) -> ExecOut {
                 }
             }
             out.segments += 1;
+            {
+                let from = match if a.tid == PROD { &ps } else { &cs } {
+                    Stop::Point(l) => *l,
+                    _ => "?",
+                };
+                let what = match (a.tid, a.action) {
+                    (CONS, CANCEL) => " (cancel)",
+                    (CONS, SPURIOUS) => " (spurious poll)",
+                    _ => "",
+                };
+                obs.lock().unwrap().log.push(format!("  -- {} runs from {from}{what}{}", if a.tid == PROD { "P" } else { "C" }, if costs[pick] > 0 { " [preemption]" } else { "" }));
+            }
             match b.resume(a.tid) {
                 Ok(_) => {}
                 Err(e) => {
@@ -486,7 +498,7 @@ fn main() {
     let thorough = r.tier().is_thorough();
     let jobs = r.args.jobs;
     let bound_small: u32 = r.args.extra_value("--bound-small").and_then(|s| s.parse().ok()).unwrap_or(r.tier().pick(4, 64));
-    let bound: u32 = r.args.extra_value("--bound").and_then(|s| s.parse().ok()).unwrap_or(3);
+    let bound: u32 = r.args.extra_value("--bound").and_then(|s| s.parse().ok()).unwrap_or(r.tier().pick(3, 4));
     // programs, simplest first: (producer ops, consumer, cancels, spurious polls, preemption bound)
     let mut progs: Vec<(Prog, u32)> = Vec::new();
     let mk = |p: &str, c: ConsProg, cancels: u8, spurious: u8| Prog { prod: Op::parse(p), cons: c, cancels, spurious };
